@@ -16,7 +16,13 @@ pub struct ArchiveState {
 pub fn write_fs(root: &std::path::Path, fs: &Value) {
     for f in fs.as_array().cloned().unwrap_or_default() {
         let mut p = root.to_path_buf();
-        p.push(f["p"].as_str().unwrap_or("x"));
+        if let Some(h) = f["p_hex"].as_str() {
+            // a path given as bytes: names that are not UTF-8
+            use std::os::unix::ffi::OsStrExt;
+            p.push(std::ffi::OsStr::from_bytes(&unhex(h)));
+        } else {
+            p.push(f["p"].as_str().unwrap_or("x"));
+        }
         if let Some(parent) = p.parent() {
             std::fs::create_dir_all(parent).unwrap();
         }
